@@ -5,6 +5,11 @@ import "strings"
 // CommandLine takes in command line arguments as a slice and escapes the parameters
 func CommandLine(s []string) {
 	for i := range s {
+		if s[i] == "" {
+			// an empty argument must survive as an argument
+			s[i] = `''`
+			continue
+		}
 		s[i] = strings.Replace(s[i], `\`, `\\`, -1)
 		s[i] = strings.Replace(s[i], `$`, `\$`, -1)
 		s[i] = strings.Replace(s[i], `@`, `\@`, -1)
